@@ -452,6 +452,11 @@ func runNet(dir string, seed uint64, tier string) {
 			}
 			if !sawReset || err == nil {
 				fail(c.id, "failed-write-not-reset-or-reported", "a failed write did not reset the stream or was not reported", j.label, fmt.Sprintf("ops=%v err=%v", c.ops, err), "reset + error")
+				if err == nil {
+					// the manager records a voucher / voucher result right after a send that reported success
+					res.fail(monitorFailure{Property: "C19", CaseID: c.id, Signature: "failed-send-reported-as-sent", Input: j.label, Observed: fmt.Sprintf("ops=%v err=%v", c.ops, err),
+						What: "a message whose write failed was reported as sent: SendVoucher / SendVoucherResult then record a voucher (result) that never left"})
+				}
 			}
 		}
 		if c.cancel != 0 && !reachable {
